@@ -39,6 +39,13 @@ CLAIMED["C11"] = {
   "technique": "machine-checked proof in Lean 4 (decide over generated tables; permutation lemmas; real algebra) + exhaustive model/implementation correspondence over the finite domains",
 }
 
+CLAIMED["C02"] = {
+  "text": "Lean 4 theorems (Geodesy/Props/C02.lean): every operator tree built from pointwise leaves and stack-free pipelines, to any nesting depth, inverted or not, acts tuple by tuple (good_pointwise, induction over the tree with UNINTERPRETED leaf semantics), hence results for a concatenation, a permutation, a partition into chunks and singletons agree for sets of any size (apply_append, apply_perm, apply_singletons, apply_getElem); the one built-in that carries state across tuples, helmert, is pointwise for every epoch sequence incl. NaN epochs (helmert_pointwise, from C07.loop_eq_map), as are adapt, unitconvert, addone. Tied to /repo by a correspondence run and by an oracle on the implementation: full set vs singletons vs random permutation vs random chunking vs repeated application after other use of the same handle, bit for bit, on 30 operators/pipelines (time dependent helmert, grid operators, stack pipelines, projections) with mixed epochs, NaN and out-of-domain members, duplicates, empty sets, up to 20000 tuples; and the same tuples through slices, arrays and the (3D, epoch) and (2D, height, epoch) adapters.",
+  "design_ref": "DESIGN.md section 7, C02",
+  "note": "Partial: bit-identity in floating point and thread safety are not theorems (purity of the model + Rust's &self); pipelines with stack steps are pointwise by C12's refinement theorem for pure stack programs, mixed programs by the oracle; the container clause is decided for elementary operators (a 2-D container keeps two elements between the steps of a pipeline, as documented for set_coord).",
+  "technique": "machine-checked proof in Lean 4 (induction over operator trees, loop invariant for helmert) + model/implementation correspondence check + bitwise set/singleton/permutation/chunk oracle",
+}
+
 ALL = ["C%02d" % i for i in range(1, 21)]
 
 def main():
